@@ -7,6 +7,7 @@ import (
 	"hash/fnv"
 	"regexp"
 	"runtime/debug"
+	"strconv"
 	"strings"
 
 	"github.com/tetratelabs/wazero"
@@ -70,7 +71,7 @@ func (e *p2Env) newWorld(engine string, c gcfg) (*world, string) {
 			w.close()
 			return nil, fmt.Sprintf("%s: compile: %v", s, err)
 		}
-		mod, err := e.rts[engine].InstantiateModule(bg, cm, wazero.NewModuleConfig().WithName(s))
+		mod, err := e.rts[engine].InstantiateModule(bg, cm, modCfg.WithName(s))
 		if err != nil {
 			w.close()
 			return nil, fmt.Sprintf("%s: instantiate: %v", s, err)
@@ -109,15 +110,18 @@ func (w *world) callS(side, fn string, args ...uint64) string {
 	if len(res) == 0 {
 		return "ok"
 	}
-	var b strings.Builder
-	b.WriteString("ok:")
+	if len(res) == 1 {
+		return "ok:" + strconv.FormatUint(res[0], 10)
+	}
+	b := make([]byte, 0, 48)
+	b = append(b, "ok:"...)
 	for i, r := range res {
 		if i > 0 {
-			b.WriteByte(',')
+			b = append(b, ',')
 		}
-		fmt.Fprint(&b, r)
+		b = strconv.AppendUint(b, r, 10)
 	}
-	return b.String()
+	return string(b)
 }
 
 func (w *world) instK(kind string) (api.Module, string) {
@@ -125,7 +129,7 @@ func (w *world) instK(kind string) (api.Module, string) {
 	if err != nil {
 		return nil, "fail:compile:" + err.Error()
 	}
-	k, err := w.env.rts[w.engine].InstantiateModule(bg, cm, wazero.NewModuleConfig().WithName(""))
+	k, err := w.env.rts[w.engine].InstantiateModule(bg, cm, modCfg.WithName(""))
 	if err != nil {
 		return nil, canonInstErr(err)
 	}
@@ -269,34 +273,21 @@ func (e *p2Env) runWord(c gcfg, ops []opDef, word []int, st *p2Stats, trace func
 	compareObs := func(opName string, step int) bool {
 		want := m.observe()
 		ok := true
-		var first []obsItem
-		for wi, w := range ws {
-			got := w.observe(m)
-			st.Reads += int64(len(got))
-			if wi == 0 {
-				first = got
-			} else {
-				st.EngineCompares++
-				if fmt.Sprint(first) != fmt.Sprint(got) && trace != nil {
-					trace("  engines observe different states")
-				}
-			}
-			if len(got) != len(want) {
-				report("p2:"+opName+":obs:"+got[len(got)-1].Label, fmt.Sprintf("[%s %s] after %v: %v", w.engine, c, names[:step+1], got[len(got)-1]), w.engine, step)
-				ok = false
-				continue
-			}
+		for _, w := range ws {
+			st.Reads += int64(len(want))
 			for i := range want {
-				if got[i] != want[i] {
-					report("p2:"+opName+":obs:"+sigLabel(want[i].Label)+"/spec:"+sigVal(want[i].Val),
-						fmt.Sprintf("[%s %s] after %v: read %s = %s, the model of the shared object says %s", w.engine, c, names[:step+1], want[i].Label, got[i].Val, want[i].Val), w.engine, step)
+				p := &want[i]
+				if got := w.read(p); got != p.Want {
+					report("p2:"+opName+":obs:"+sigLabel(p.Label)+"/spec:"+sigVal(p.Want),
+						fmt.Sprintf("[%s %s] after %v: read %s = %s, the model of the shared object says %s", w.engine, c, names[:step+1], p.Label, got, p.Want), w.engine, step)
 					ok = false
 					break
 				}
 			}
 		}
+		st.EngineCompares += int64(len(want))
 		if trace != nil {
-			trace(fmt.Sprintf("  model state: %s", m.key()))
+			trace(fmt.Sprintf("  model state: %s (%d reads per engine)", m.key(), len(want)))
 		}
 		return ok
 	}
@@ -371,7 +362,7 @@ func consequenceCase(engine string) (outcome string, v *viol) {
 	rt := wazero.NewRuntimeWithConfig(bg, runtimeConfig(engine))
 	defer rt.Close(bg)
 	c := gcfg{Shape: "EI"}
-	E, err := rt.InstantiateWithConfig(bg, buildSide(c, "E"), wazero.NewModuleConfig().WithName("E"))
+	E, err := rt.InstantiateWithConfig(bg, buildSide(c, "E"), modCfg.WithName("E"))
 	if err != nil {
 		return "setup-failed", &viol{Sig: "p2:setup:graph-not-instantiable", What: err.Error(), Engine: engine}
 	}
@@ -383,7 +374,7 @@ func consequenceCase(engine string) (outcome string, v *viol) {
 			I32Const(1).Call(grow).Drop().
 			LocalGet(2).LocalGet(3).Mem(0x3a, 0, 0).MemorySize().B))
 	m.ExportFunc("load", m.AddFunc(tI32, tI32, nil, (&wb.Asm{}).LocalGet(0).Mem(0x2d, 0, 0).B))
-	I, err := rt.InstantiateWithConfig(bg, m.Encode(), wazero.NewModuleConfig().WithName("I"))
+	I, err := rt.InstantiateWithConfig(bg, m.Encode(), modCfg.WithName("I"))
 	if err != nil {
 		return "rejected-as-specified", nil
 	}
